@@ -1,12 +1,12 @@
 CONSTANTS
   Family = "layouts"
-  Blocks = {30000}
+  Blocks = {8, 16}
   I = 2
   Waits = {1, 2, 3}
   MaxOps = 0
-  MaxChunks = 2
-  Kinds = {"rot", "flush"}
-  Orders = "id"
+  MaxChunks = 3
+  Kinds = {"rot"}
+  Orders = "all"
   Windows = "chunks"
   MaxFaults = 0
   MaxSyncFaults = 0
